@@ -523,7 +523,7 @@ impl C04 {
             let a = operand(t);
             let b = operand(t);
             let c = operand(t);
-            let stmt = match t.weighted(&[8, 4, 4, 3, 3, 2, 2, 2, 2, 3]) {
+            let stmt = match t.weighted(&[8, 4, 4, 3, 3, 2, 2, 2, 2, 3, 2]) {
                 9 => format!(
                     "let v{} = include {} \"{}\";",
                     i,
@@ -571,6 +571,16 @@ impl C04 {
                 5 => format!("let v{} = {} ({}, {}) ;", i, t.pick(&["map", "filter"]), t.pick(&["func (x) => x", "func () => 1", "func (a, b) => a", "func (a, b, c) => a", "1", "NULL"]), t.pick(&["[1, 2]", "{a = 1}", "\"ab\"", "1", "NULL", "[]"])),
                 6 => format!("let v{} = reduce({}, {}, {});", i, t.pick(&["func (acc, x) => acc + x", "func (a) => a", "func (a, b, c) => a", "func (a, b, c, d) => a", "1"]), a, t.pick(&["[1, 2]", "{a = 1}", "\"ab\"", "1", "NULL"])),
                 7 => format!("let v{} = select ({}, {}) => {{ a = 1, true = 2 }};", i, a, b),
+                10 => {
+                    // functions as select arms / list items, parameter names repeated or not
+                    let f = |t: &mut Tape| (*t.pick(&["func (x, x) => x", "func (x, y) => x", "func (y) => y", "func () => 1", "func (x, x, x) => x", "func (a, b) => a + b", "func (x) => func (x) => x"])).to_string();
+                    let (f1, f2, f3) = (f(t), f(t), f(t));
+                    match t.choice(3) {
+                        0 => format!("let v{} = select (\"a\", {}) => {{ a = {}, b = {} }};", i, f1, f2, f3),
+                        1 => format!("let v{} = [{}, {}, {}];", i, f1, f2, f3),
+                        _ => format!("let v{i} = select ({c}, {}) => {{ true = {}, false = {} }};\nlet r{i} = v{i}(1, 2);", f1, f2, f3, i = i, c = a),
+                    }
+                }
                 _ => format!("let v{} = {}.{};", i, t.pick(&["[1, 2]", "{a = 1}", "\"s\"", "1", "NULL", "[[1]]"]), t.pick(&["0", "1", "5", "a", "b", "\"a\"", "(0 - 1)", "(1)", "9223372036854775807", "0.0", "(0 - 1).0"])),
             };
             s.push_str(&stmt);
